@@ -15,6 +15,7 @@ import UpdaterModel.Driver.Proto
 import UpdaterModel.Driver.Judge
 import UpdaterModel.Driver.CodecDriver
 import UpdaterModel.Driver.AbiDump
+import UpdaterModel.Model.Interleave
 
 open Updater Updater.Proto
 
@@ -24,8 +25,9 @@ structure Block where
   arch : String := "x86_64"
   libs : List (String × Bytes) := []
   vtab : List ((String × String × String) × Bool) := []
-  lines : Array (List String × List String) := #[]   -- (op parts, impl obs parts)
+  lines : Array (List String × Array (List String) × List String) := #[]   -- (op parts, grant lines of an episode, impl obs parts)
   pendingOp : Option (List String) := none
+  pendingG : Array (List String) := #[]
   bad : Option String := none
 
 def mkEnv (b : Block) : Env :=
@@ -59,6 +61,63 @@ def fixStatus (parts : List String) : List String × Option String :=
       | _ => (parts, none)
     else (parts, none)
 
+/-- `conc s=… u=<update op> b=<ops of the other thread>` -/
+def parseConc (parts : List String) : Option (Option String × UpdateScript × List Op) := do
+  let f := fields parts
+  let u ← f.lookup "u" >>= decTok
+  let uop ← parseOp ((u.splitOn " ").filter (· ≠ "")) #[] #[]
+  let bs ← f.lookup "b" >>= (fun s => mapM' decTok (splitList "," s))
+  let bops ← mapM' (fun t => parseOp ((t.splitOn " ").filter (· ≠ "")) #[] #[]) bs
+  match uop with
+  | .update chan sc => pure (chan, sc, bops)
+  | _ => none
+
+def parseWho (s : String) : Option Who := if s == "A" then some .A else if s == "B" then some .B else none
+
+/-- Only the storage directory of an observation (episodes compare disks and return values). -/
+def diskObs (d : Disk) : Obs := obsOf { disk := d, config := none, libs := [] } .unit [] [] 0
+
+def diskFields (a b : Obs) : List String :=
+  (diffFields a b).filter fun f => f == "sj" || f == "sje" || f == "pj" || f == "pd" || f == "junk"
+
+/-- Replay one concurrent episode in the model, grant by grant, against the implementation's grants.
+    Returns the disk to continue from, whether a difference was seen, and the C11 verdict on the
+    implementation's grants. -/
+def processConc (env : Env) (hist : String) (k : Nat) (w : World) (chan : Option String) (sc : UpdateScript) (bops : List Op)
+    (glines : Array (List String)) (firstDiff : Bool) : IO (Disk × Nat × Option (Nat × String) × Option String) := do
+  match w.config with
+  | none =>
+    -- without a configuration every call is a single no-op section; nothing to interleave
+    return (w.disk, 0, none, none)
+  | some cfg =>
+    let mut cw : CW := { disk := w.disk, upc := .copyCfg, bq := bops }
+    let mut diffs := 0
+    let mut gtrace : Array (Who × List Ret × View) := #[]
+    let mut i := 0
+    for g in glines do
+      let f := fields g
+      match f.lookup "who" >>= parseWho, f.lookup "rets" >>= (fun s => mapM' parseRet (splitList "+" s)), parseObs g with
+      | some who, some rets, some iobs =>
+        gtrace := gtrace.push (who, rets, Judge.viewOfObs iobs)
+        let r := grant env cfg w.libs chan sc cw who
+        cw := r.1.norm
+        let mobs := diskObs cw.disk
+        let fs := diskFields mobs iobs ++ (if r.2.map renderRet != rets.map renderRet then ["ret"] else [])
+        if !fs.isEmpty then
+          if diffs == 0 && firstDiff then
+            IO.println s!"DIFF {hist} step={k} fields={",".intercalate fs} op=conc grant={i} who={repr who} | M rets={"+".intercalate (r.2.map renderRet)} {renderObs mobs} | I {" ".intercalate g}"
+          else
+            IO.println s!"DIFF+ {hist} step={k} fields={",".intercalate fs} grant={i}"
+          diffs := diffs + 1
+          cw := { cw with disk := diskOfObs iobs }
+      | _, _, _ => return (w.disk, diffs, none, some s!"unparsable grant line {" ".intercalate g}")
+      i := i + 1
+    -- judge the implementation's grants
+    let pre : View := Judge.viewOfObs (diskObs w.disk)
+    let g0 := G11.start env cfg.key sc bops pre
+    let verdict := judge11 env cfg.key sc g0 0 pre gtrace.toList
+    return (cw.disk, diffs, verdict, none)
+
 def processBlock (b : Block) (st : Stats) : IO Stats := do
   match b.bad with
   | some why => IO.println s!"BAD {b.id} {why}"; return { st with bads := st.bads + 1, hists := st.hists + 1 }
@@ -72,7 +131,38 @@ def processBlock (b : Block) (st : Stats) : IO Stats := do
   let mut modelTrace : Array (Op × Obs) := #[]
   let mut diff := false
   let mut st := { st with hists := st.hists + 1 }
-  for (opParts, obsParts) in b.lines do
+  let mut hasConc := false
+  for (opParts, glines, obsParts) in b.lines do
+    if opParts.head? == some "conc" then
+      hasConc := true
+      match parseConc opParts.tail, parseObs obsParts with
+      | some (chan, sc, bops), some iobs =>
+        let (d, nd, verdict, bad) ← processConc env b.id k w chan sc bops glines (!diff)
+        if let some why := bad then
+          IO.println s!"BAD {b.id} step={k} {why}"
+          return { st with bads := st.bads + 1 }
+        if let some (gi, why) := verdict then
+          IO.println s!"J C11 {b.id} step={k} side=impl grant={gi} {why}"
+          st := { st with jfails := st.jfails + 1 }
+        if nd > 0 then
+          diff := true
+          st := { st with diffs := st.diffs + nd }
+        w := { w with disk := d }
+        -- the observation after the episode: the storage directory must be the one after the last grant
+        let fs := diskFields (diskObs w.disk) iobs
+        if !fs.isEmpty then
+          IO.println s!"DIFF+ {b.id} step={k} fields={",".intercalate fs} op=conc end"
+          diff := true
+          st := { st with diffs := st.diffs + 1 }
+          w := { w with disk := diskOfObs iobs }
+        pjHist := pjHist.push iobs.pj
+        sjHist := sjHist.push iobs.sj
+        k := k + 1
+        st := { st with steps := st.steps + 1 }
+        continue
+      | _, _ =>
+        IO.println s!"BAD {b.id} step={k} unparsable-episode {" ".intercalate opParts}"
+        return { st with bads := st.bads + 1 }
     match parseOp opParts pjHist sjHist with
     | none =>
       IO.println s!"BAD {b.id} step={k} unparsable-op {" ".intercalate opParts}"
@@ -117,7 +207,8 @@ def processBlock (b : Block) (st : Stats) : IO Stats := do
         k := k + 1
         st := { st with steps := st.steps + 1 }
   if !diff then IO.println s!"OK {b.id}"
-  -- monitors
+  -- monitors (histories with concurrent episodes are judged by the episode monitor only)
+  if hasConc then return st
   for (prop, verdict) in Judge.judgeAll env b.libs implTrace.toList do
     match verdict with
     | none => pure ()
@@ -154,11 +245,15 @@ partial def loop (h : IO.FS.Stream) (b : Block) (st : Stats) : IO Stats := do
   | "O" :: rest =>
     match b.pendingOp with
     | some _ => loop h { b with bad := some "O without R" } st
-    | none => loop h { b with pendingOp := some rest } st
+    | none => loop h { b with pendingOp := some rest, pendingG := #[] } st
+  | "G" :: rest =>
+    match b.pendingOp with
+    | none => loop h { b with bad := some "G without O" } st
+    | some _ => loop h { b with pendingG := b.pendingG.push rest } st
   | "R" :: rest =>
     match b.pendingOp with
     | none => loop h { b with bad := some "R without O" } st
-    | some op => loop h { b with pendingOp := none, lines := b.lines.push (op, rest) } st
+    | some op => loop h { b with pendingOp := none, pendingG := #[], lines := b.lines.push (op, b.pendingG, rest) } st
   | ["E"] =>
     let st ← processBlock b st
     loop h {} st
